@@ -680,7 +680,7 @@ def check_C18(res, tier, seed):
             continue
         L = free['locks']
         ks = list(range(1, L + 1))
-        if tier == 'quick' and len(ks) > 48:
+        if tier == 'quick' and len(ks) > 48 and sc != 'closelast_openlogin':      # that scenario's window is a single lock point: always all of them
             ks = sorted(set(ks[:16] + ks[-16:] + rng.sample(ks[16:-16], 16)))
         info[sc] = {'lock_points': L, 'explored': len(ks), 'sequential': [s1['raw'][:160], s2['raw'][:160]]}
         jobs += [(thr, c.lib, sc, k, [s1, s2]) for k in ks] + [(thr, c.lib, sc, 0, [s1, s2])] * (3 if tier == 'quick' else 40)
